@@ -1,5 +1,17 @@
-"""Native replay for C19: every record a task emits through the labtech logger and every line it prints under a process
-backend reaches the caller's handlers exactly once and before run_tasks returns."""
+"""Native harness for C19: every record a task emits through the labtech logger and everything it prints under a
+process backend reaches the caller's handlers exactly once and before run_tasks returns.
+
+BOUNDED (never counted as proved): replay of refuted C19 obligations, and stand-in on every run.
+
+Task universe: tasks that log and print in the patterns that stress the three contracts --
+  * plain lines, several flushes in a row, flush between lines (proxy exactly-once);
+  * UNTERMINATED text that is flushed and later completed (`print(x, end='', flush=True)`, `write(x); flush()`),
+    output whose last line has no newline (flush-before-result);
+  * volume: thousands of records from the task that finishes last, several chatty tasks finishing together
+    (drain-before-return);
+  * a quiet slow task after a chatty fast one, a failing task that printed before it raised.
+Oracle: each tagged token appears exactly once in what the caller's handler has received when run_tasks returns.
+"""
 from __future__ import annotations
 
 import argparse
@@ -18,16 +30,46 @@ class Talk:
     name: str
     secs: float = 0.0
     flushes: int = 0
+    mode: str = 'lines'
+    volume: int = 0
 
     def run(self):
         time.sleep(self.secs)
-        labtech.logger.info(f'LOG-{self.name}')
-        print(f'OUT-{self.name}')
+        n = self.name
+        labtech.logger.info(f'LOG-{n}-X')
+        print(f'OUT-{n}-X')
         for _ in range(self.flushes):
             sys.stdout.flush()
-        print(f'OUT2-{self.name}')
-        print(f'ERR-{self.name}', file=sys.stderr)
-        return self.name
+        print(f'OUT2-{n}-X')
+        print(f'ERR-{n}-X', file=sys.stderr)
+        if self.mode == 'partial':
+            print(f'PART-{n}-X', end='', flush=True)          # unterminated text flushed, completed later
+            print(f' REST-{n}-X')
+            sys.stderr.write(f'ZQE-{n}-X')
+            sys.stderr.flush()
+            sys.stderr.write(f' ZQF-{n}-X\n')
+            sys.stdout.flush()
+            sys.stdout.flush()
+        if self.mode == 'tail':
+            sys.stdout.write(f'TAIL-{n}-X')                    # the last output has no newline and is never flushed by the task
+        for i in range(self.volume):
+            labtech.logger.info(f'VOL-{n}-{i}-X')
+        if self.mode == 'fail':
+            print(f'BEFORE-FAIL-{n}-X')
+            raise ValueError('boom')
+        return n
+
+    def tokens(self):
+        n = self.name
+        t = [f'LOG-{n}-X', f'OUT-{n}-X', f'OUT2-{n}-X', f'ERR-{n}-X']
+        if self.mode == 'partial':
+            t += [f'PART-{n}-X', f'REST-{n}-X', f'ZQE-{n}-X', f'ZQF-{n}-X']
+        if self.mode == 'tail':
+            t += [f'TAIL-{n}-X']
+        if self.mode == 'fail':
+            t += [f'BEFORE-FAIL-{n}-X']
+        t += [f'VOL-{n}-{i}-X' for i in range(self.volume)]
+        return t
 
 
 class Collect(logging.Handler):
@@ -45,42 +87,66 @@ def check(backend, tasks, label):
     labtech.logger.setLevel(logging.INFO)
     try:
         with tempfile.TemporaryDirectory() as d:
-            lab = labtech.Lab(storage=d, runner_backend=backend, max_workers=2)
+            lab = labtech.Lab(storage=d, runner_backend=backend, max_workers=2, continue_on_failure=True)
             lab.run_tasks(tasks, disable_progress=True, disable_top=True)
         got = list(h.msgs)          # what has been delivered by the time run_tasks returned
     finally:
         labtech.logger.removeHandler(h)
     text = '\n'.join(got)
     for t in tasks:
-        for tag in (f'LOG-{t.name}', f'OUT-{t.name}', f'OUT2-{t.name}', f'ERR-{t.name}'):
-            n = sum(line.count(tag + '\n') + (1 if line.endswith(tag) else 0) for line in [text + '\n']) if False else text.count(tag)
-            # OUT-x is a prefix of nothing else; OUT2-x counted separately
-            n = sum(1 for line in text.split('\n') if line.strip().endswith(tag))
+        for tag in t.tokens():
+            n = text.count(tag)
             if n != 1:
-                return f'[{backend}/{label}] message {tag!r} was delivered {n} times before run_tasks returned (expected exactly once)'
+                return f'[{backend}/{label}] {tag!r} was delivered {n} times by the time run_tasks returned (expected exactly once)'
     return None
+
+
+def scenarios(tier):
+    sc = [('single', [Talk('a')]),
+          ('last-finisher-slow', [Talk('a'), Talk('b', 0.7)]),
+          ('double-flush', [Talk('a', 0.0, 2), Talk('b')]),
+          ('unterminated-then-completed', [Talk('a', 0.0, 1, 'partial'), Talk('b', 0.2, 0, 'partial')]),
+          ('no-trailing-newline', [Talk('a', 0.0, 0, 'tail')]),
+          ('failing-task-printed-first', [Talk('a', 0.0, 0, 'fail'), Talk('b')]),
+          ('chatty-last-finisher', [Talk('a'), Talk('b', 0.3, 0, 'lines', 1500)]),
+          ('two-chatty-finish-together', [Talk('a', 0.2, 0, 'lines', 700), Talk('b', 0.2, 0, 'lines', 700)])]
+    if tier != 'quick':
+        sc += [('very-chatty-last-finisher', [Talk('a'), Talk('b', 0.3, 0, 'lines', 6000)]),
+               ('chatty-then-quiet-slow', [Talk('a', 0.0, 0, 'lines', 2000), Talk('b', 1.0)]),
+               ('six-tasks-mixed', [Talk(f't{i}', 0.05 * i, i % 3, ('lines', 'partial', 'tail')[i % 3], 100 * i) for i in range(6)])]
+    return sc
+
+
+def explore(tier):
+    n = 0
+    for backend in ('fork', 'spawn'):
+        for label, tasks in scenarios(tier):
+            if backend == 'spawn' and tier == 'quick' and label in ('two-chatty-finish-together', 'failing-task-printed-first', 'last-finisher-slow'):
+                continue
+            n += 1
+            why = check(backend, tasks, label)
+            if why:
+                return dict(reproduced=True, level='api', summary=why), n
+    return dict(reproduced=False, level='api', cases=n), n
 
 
 def main():
     ap = argparse.ArgumentParser()
     ap.add_argument('--obligation', default='')
     ap.add_argument('--repo', default='/repo')
+    ap.add_argument('--prop', default='C19')
+    ap.add_argument('--tier', default='quick')
     a = ap.parse_args()
-    res = dict(reproduced=False, level='api')
     try:
-        for backend in ('fork', 'spawn'):
-            for label, tasks in (('single', [Talk('a')]),
-                                 ('last-finisher-slow', [Talk('a'), Talk('b', 0.7)]),
-                                 ('double-flush', [Talk('a', 0.0, 2), Talk('b')])):
-                why = check(backend, tasks, label)
-                if why:
-                    res = dict(reproduced=True, level='api', summary=why)
-                    break
-            if res['reproduced']:
-                break
+        res, n = explore(a.tier)
     except Exception:
-        res = dict(reproduced=False, error=traceback.format_exc()[-1500:])
-    print(json.dumps(res, default=str))
+        res, n = dict(reproduced=False, error=traceback.format_exc()[-1500:]), 0
+    if a.obligation:
+        print(json.dumps(res, default=str))
+    else:
+        print(json.dumps([dict(name='c19:messages-exactly-once-before-return', bounded=True,
+                               bound=f'{n} scenario x backend runs (fork, spawn): flush patterns, unterminated text, no trailing newline, failing task, up to {1500 if a.tier == "quick" else 6000} records from the last finisher',
+                               violation=bool(res.get('reproduced')), witness=[res] if res.get('reproduced') else [], error=res.get('error'))], default=str))
     return 1 if res.get('reproduced') else 0
 
 
